@@ -27,6 +27,8 @@ def leafConforms (c : Codecs) : Leaf → JsonV → Bool
   | .bytes, .str s => c.bytes.canon s
   | .datetime, .str s => c.datetime.canon s
   | .date, .str s => c.date.canon s
+  | .time, .str s => c.time.canon s
+  | .uuid, .str s => c.uuid.canon s
   | _, _ => false
 
 /-- Arbitrary JSON of nesting depth < `n` whose objects have pairwise distinct keys (what an `Any`-typed position
@@ -153,7 +155,8 @@ def HasTypeF (c : Codecs) : Nat → Decls → Ty → Val → Prop
     | .leaf .bytes => ∃ b, v = .bytes b ∧ c.bytes.Valid b
     | .leaf .datetime => ∃ b, v = .datetime b ∧ c.datetime.Valid b
     | .leaf .date => ∃ b, v = .date b ∧ c.date.Valid b
-    | .leaf _ => False
+    | .leaf .time => ∃ b, v = .time b ∧ c.time.Valid b
+    | .leaf .uuid => ∃ b, v = .uuid b ∧ c.uuid.Valid b
     | .any => ∃ j, v = Val.ofJson j ∧ jsonFits n j = true
     | .list t' => ∃ xs, v = .list xs ∧ ∀ x ∈ xs, HasTypeF c n decls t' x
     | .dict t' => ∃ kvs, v = .dict kvs ∧ (akeys kvs).Nodup ∧ ∀ kv ∈ kvs, HasTypeF c n decls t' kv.2
